@@ -17,8 +17,8 @@ func init() {
 		Props: []string{"C18"}, Floor: 5, Run: runVF08})
 	register(&Rule{ID: "VF-09", Title: "the verifier writes only a leader checkpoint's empty Extensions; foreign extensions are refused",
 		Props: []string{"C18"}, Floor: 2, Run: runVF09})
-	register(&Rule{ID: "ORD-24", Title: "verifier bookkeeping order: state and hand-off only after the inner store accepted the batch; first-index before reading; one report per received checkpoint",
-		Props: []string{"C16", "C18"}, Floor: 4, Run: runORD24})
+	register(&Rule{ID: "ORD-24", Title: "verifier bookkeeping order: state and hand-off only after the inner store accepted the batch; first-index before reading; one report per received checkpoint; counters only after the inner store accepted the batch",
+		Props: []string{"C16", "C18", "C20"}, Floor: 4, Run: runORD24})
 	register(&Rule{ID: "ORD-25", Title: "appends never block on the reporter: non-blocking hand-off with the drop counted, callback never on the append path",
 		Props: []string{"C18"}, Floor: 3, Run: runORD25})
 }
@@ -80,6 +80,50 @@ func runVF04(p *Prog, r *RuleRun) {
 	}
 	pos := p.Position(hashFn.Pos())
 	r.Check(chained, funcDisplay(hashFn)+":chained", pos, "every fnv1a step continues the running sum (no step restarts from a constant)", "a hashing step starts from a constant instead of the running sum: earlier fields/entries no longer influence the checksum")
+	// every return yields the chained hash; the only place where an entry may be left out (or the chain restarted)
+	// is the very first index of the log, where nothing precedes it in any range: such a return must be
+	// dominated by the `Index == 1` edge
+	live := liveBlocks(hashFn)
+	nUnhashed := 0
+	for _, b := range hashFn.Blocks {
+		ret, ok := b.Instrs[len(b.Instrs)-1].(*ssa.Return)
+		if !ok || !live[b] || len(ret.Results) != 1 {
+			continue
+		}
+		if derivesFromCall(ret.Results[0], func(c *ssa.Call) bool { return strings.HasPrefix(eventName(c), "fnv1a.") }) {
+			continue
+		}
+		nUnhashed++
+		guarded := false
+		for _, g := range hashFn.Blocks {
+			ifi, ok := g.Instrs[len(g.Instrs)-1].(*ssa.If)
+			if !ok {
+				continue
+			}
+			bo, ok := ifi.Cond.(*ssa.BinOp)
+			if !ok || (bo.Op != token.EQL && bo.Op != token.NEQ) {
+				continue
+			}
+			x, y := bo.X, bo.Y
+			if _, isC := x.(*ssa.Const); isC {
+				x, y = y, x
+			}
+			c, isC := y.(*ssa.Const)
+			if !isC || fieldLoadName(x) != "Index" || c.Int64() != 1 {
+				continue
+			}
+			edge := g.Succs[0]
+			if bo.Op == token.NEQ {
+				edge = g.Succs[1]
+			}
+			if len(edge.Preds) == 1 && (edge == b || edge.Dominates(b)) {
+				guarded = true
+			}
+		}
+		r.Check(guarded, fmt.Sprintf("%s:unhashed-return#%d", funcDisplay(hashFn), nUnhashed), posOf(p, ret),
+			"the only return that leaves an entry out of the chain is confined to Index == 1 (nothing precedes it in any range)",
+			"the hash routine returns a value that does not come from the fnv chain on a path that is not confined to the log's first index: an entry in the middle of a checkpoint range is left out and the chain restarts there, so a divergence in it or in any entry before it inside the range goes undetected")
+	}
 	for _, f := range []string{"Index", "Term", "Type", "Data", "Extensions"} {
 		r.Check(covered[f], funcDisplay(hashFn)+":covers("+f+")", pos, "raft.Log."+f+" feeds the chained hash that is returned",
 			"raft.Log."+f+" does not reach the returned checksum: a divergence in that field is never detected")
@@ -502,6 +546,10 @@ func runORD24(p *Prog, r *RuleRun) {
 				return CallInfo{Event: "REPORT", Primitive: true}
 			}
 		}
+		if n == "metrics.Collector.IncrementCounter" && len(cc.Args) > 0 {
+			name, _ := constStringOf(cc.Args[0])
+			return CallInfo{Event: "COUNT(" + name + ")", Primitive: true}
+		}
 		return CallInfo{}
 	}
 	spec := &OrdSpec{Name: "verifier-order", Call: call,
@@ -529,6 +577,9 @@ func runORD24(p *Prog, r *RuleRun) {
 			case root == sl && (ev == "SUM.Store" || ev == "START.Store" || ev == "HANDOFF") && (phase == "call" || phase == ""):
 				r.Check(f.Must["raft.LogStore.StoreLogs:ok"], cx.Key(ins, ev), posOf(p, ins), ev+" only after the wrapped store accepted the batch",
 					"the verifier commits its running checksum / hands a checkpoint to the background verifier before the wrapped StoreLogs succeeded: a failed append leaves the sum covering entries that were never stored (false alarm on the next checkpoint) or verifies entries that are not there; path: "+trace(f))
+			case root == sl && strings.HasPrefix(ev, "COUNT(") && phase == "call":
+				r.Check(f.Must["raft.LogStore.StoreLogs:ok"], cx.Key(ins, ev), posOf(p, ins), "the verifier counts checkpoints / drops of a batch only after the wrapped store accepted it",
+					"the verifier increments "+ev+" before the wrapped StoreLogs succeeded: a batch that is refused or fails is counted although it produces neither a report nor a counted drop (checkpoints_written = ranges_verified + dropped_reports no longer holds; a retried batch is counted twice); path: "+trace(f))
 			case root == vf && ev == "raft.LogStore.GetLog" && phase == "call":
 				r.Check(f.Must["raft.LogStore.FirstIndex:ok"], cx.Key(ins, ev), posOf(p, ins), "the range is read only after FirstIndex succeeded (range check possible)",
 					"the verifier reads back the range without a successful FirstIndex check before it: a truncated range is reported as corruption instead of ErrRangeMismatch")
